@@ -29,6 +29,7 @@ from mashumaro.core.meta.helpers import (
     is_annotated,
     is_final,
     is_generic,
+    is_hashable,
     is_literal,
     is_named_tuple,
     is_new_type,
@@ -721,7 +722,7 @@ def pack_named_tuple(spec: ValueSpec) -> Expression:
         spec.origin_type
     ]
     annotations = {
-        k: resolved.get(v, v)
+        k: resolved.get(v, v) if is_hashable(v) else v
         for k, v in getattr(spec.origin_type, "__annotations__", {}).items()
     }
     fields = getattr(spec.type, "_fields", ())
@@ -763,7 +764,7 @@ def pack_typed_dict(spec: ValueSpec) -> Expression:
         spec.origin_type
     ]
     annotations = {
-        k: resolved.get(v, v)
+        k: resolved.get(v, v) if is_hashable(v) else v
         for k, v in spec.origin_type.__annotations__.items()
     }
     all_keys = list(annotations.keys())
